@@ -42,7 +42,7 @@ func init() {
 				c := f.Ctx()
 				srcs := core.Names("runtime.NumCPU", "runtime.GOMAXPROCS")
 				n := 0
-				ast.Inspect(f.Body(), func(x ast.Node) bool {
+				core.InspectBody(f, func(x ast.Node) bool {
 					as, ok := x.(*ast.AssignStmt)
 					if !ok || len(as.Lhs) != 1 || len(as.Rhs) != 1 {
 						return true
@@ -71,7 +71,7 @@ func init() {
 							v, ok := ast.Unparen(e).(*ast.Ident)
 							return ok && c.Info.ObjectOf(v) == o
 						}
-						ast.Inspect(f.Body(), func(y ast.Node) bool {
+						core.InspectBody(f, func(y ast.Node) bool {
 							ifs, ok := y.(*ast.IfStmt)
 							if !ok {
 								return true
